@@ -481,6 +481,8 @@ class Interp:
         t = self.truth(cond)
         if t is None:
             t = self.assumed(st.test)
+            if t is not None:
+                self.add_fact(env, st.test, t)
         if t is True:
             e = env
             self.refine(st.test, e, True)
@@ -541,8 +543,18 @@ class Interp:
 
     def add_fact(self, env, test, pol):
         mod = self.mod()
-        src = model.norm_src(mod, test)
-        env['$facts'] = tuple(env.get('$facts', ())) + ((src, pol),)
+        parts = [test]
+        # (a and b) true => a, b true ; (a or b) false => a, b false
+        if isinstance(test, ast.BoolOp) and (
+                (isinstance(test.op, ast.And) and pol) or
+                (isinstance(test.op, ast.Or) and not pol)):
+            parts = list(test.values)
+        if isinstance(test, ast.UnaryOp) and isinstance(test.op, ast.Not):
+            return self.add_fact(env, test.operand, not pol)
+        facts = tuple(env.get('$facts', ()))
+        for p in parts:
+            facts = facts + ((model.norm_src(mod, p), pol),)
+        env['$facts'] = facts
 
     def st_While(self, st, env):
         results = []
@@ -932,6 +944,14 @@ class Interp:
             if isinstance(target.value, ast.Name):
                 nb = base.copy(orth=None, taint=base.taint | v.taint, lg=None,
                                nonneg=False, normed=False)
+                if base.note == 'zeros' and v.deg is not None and \
+                        (base.deg in (None, {}) or base.deg == v.deg):
+                    nb.deg = v.deg
+                elif base.deg is not None and v.deg is not None and \
+                        base.deg == v.deg:
+                    nb.deg = v.deg
+                else:
+                    nb.deg = None if (v.deg or base.deg) else base.deg
                 if base.items is not None:
                     its = None
                     if idx.k == 'int' and idx.has_const() and v.k == 'int' \
@@ -1220,6 +1240,10 @@ class Interp:
         t = self.truth(c)
         if t is None:
             t = self.assumed(node.test)
+            if t is not None:
+                e = dict(env)
+                self.add_fact(e, node.test, t)
+                return self.eval(node.body if t else node.orelse, e)
         if t is True:
             return self.eval(node.body, env)
         if t is False:
